@@ -66,7 +66,8 @@ impl Sys {
     /// can the model's content be written in this system's format at all?
     fn encodable(&self, m: &TextModel) -> bool {
         match self.fmt {
-            TextArchiveFormat::Unicode => vcore::sjis::lossless(&m.title) || m.title.is_empty(),
+            // keys are label names (Shift-JIS) in both formats
+            TextArchiveFormat::Unicode => (vcore::sjis::lossless(&m.title) || m.title.is_empty()) && m.entries.iter().all(|(k, _)| vcore::sjis::lossless(k) || k.is_empty()),
             _ => m.entries.iter().all(|(k, v)| vcore::sjis::lossless(k) || k.is_empty()) && m.entries.iter().all(|(_, v)| v.is_empty() || vcore::sjis::lossless(v)),
         }
     }
@@ -353,6 +354,53 @@ fn explore(ctx: &Ctx) -> Outcome {
         for v in rep.violations {
             o.violate(v.sig, format!("[{}] {}", name, v.summary), json!({"system": name, "history": v.history}));
         }
+    }
+    // wide single-step pass: a large message alphabet that the fixpoint search cannot afford —
+    // a backslash followed by every printable ASCII character, multi-byte text before the first
+    // escape, the tricky-string catalogue, colliding and suffix-related pairs — each set on a new
+    // key, over an existing value, and next to a second key; all observers after each call
+    {
+        let mut wide: Vec<String> = Vec::new();
+        for c in 0x20u8..0x7F {
+            wide.push(format!("\\{}", c as char));
+            wide.push(format!("a\\{}b", c as char));
+        }
+        for m in ["café\\nau lait", "日本\\n語", "é\\", "ｶﾞ\\n", "\u{1F600}\\n\u{1F600}", "x\n\\n\n", "C:\\temp\\new", "\\\\t", "tab\there"] {
+            wide.push(m.to_string());
+        }
+        wide.extend(vcore::sjis::tricky_strings().iter().cloned());
+        for (_, a, b) in vcore::collide::pairs() {
+            wide.push(a.clone());
+            wide.push(b.clone());
+        }
+        let (name, sys) = systems(ctx.tier).remove(0);
+        let mut n = 0u64;
+        for m in &wide {
+            for prefix in [vec![], vec![Op::Set("a".into(), "old\\nvalue".into())], vec![Op::Set("b".into(), m.clone())]] {
+                let mut st = (St { init: 0, model: TextModel::new() }, Arc::new(vec![]));
+                let mut hist: Vec<Op> = Vec::new();
+                let mut ops = prefix.clone();
+                ops.push(Op::Set("a".into(), m.clone()));
+                ops.push(Op::Set(m.clone(), "v".into()));
+                for op in ops {
+                    n += 1;
+                    match sys.step(&st, &hist, &op) {
+                        Step::Next { state, .. } => {
+                            st = state;
+                            hist.push(op);
+                        }
+                        Step::Violation { sig, summary, .. } => {
+                            hist.push(op);
+                            o.violate(sig, format!("[{} / wide alphabet] {}", name, summary), json!({"system": name, "history": hist}));
+                            break;
+                        }
+                        Step::Skip => {}
+                    }
+                }
+            }
+        }
+        cov.transitions += n;
+        cov.extra.insert("wide_single_step_pass".into(), json!({"messages": wide.len(), "transitions": n}));
     }
     cov.traces_validated_against_impl = cov.transitions;
     cov.evaluations = cov.transitions;
